@@ -21,20 +21,49 @@ Theorem c09_finished_plan_runs_nothing :
 Proof. exact unresumed_plan_runs_nothing. Qed.
 Print Assumptions c09_finished_plan_runs_nothing.
 
-(* c09_no_reexecution, one crash, for EVERY crash image I (any image, not only reachable ones), every deviation flag
-   and every trace the resumed automaton accepts from the repair of I: no EvStart of a sequence action that is
-   finished in I (Completed / Failed / Stopped) or whose last durable attempt has no error, none inside a sequence
-   or block that is finished in I, none at all when the plan is not durably Running - i.e. the monitor mon_noreexec
-   holds.  The premise [repair_sound sh I] is what the proof needs to know about the crash repair of THIS image
-   (three facts about Fix.fix_plan, stated in NoReexec.v): a finished block stays finished; a sequence left
-   unfinished in a block left unfinished has only unfinished actions; a sequence fixBlock resumes lies in a Running
-   block and its actions from the first non-Completed one on are unfinished. *)
-From Coercion.Resume Require Import Frame NoReexec C09Proofs.
+From Coercion.Resume Require Import Frame NoReexec ImgWf RepairSound C09Proofs.
+
+(* c09_no_reexecution, one crash.  For EVERY well-formed crash image I (ImgWf.img_wf: the hierarchy of statuses
+   every image the engine writes obeys - nothing Stopped, a NotStarted action has no attempt, the actions of a
+   NotStarted sequence and the sequences of a NotStarted block are NotStarted, no block Running when the plan's own
+   bypass group is Completed or its pre / post group Failed; a boolean, evaluated on every real crash image on every
+   run), every deviation flag and every trace tr the resumed automaton accepts from the repair of I:
+   mon_noreexec I tr = true, i.e. no EvStart of a sequence action that is Completed / Failed in I or whose last
+   durable attempt has no error, no EvStart at all inside a sequence or block that is Completed / Failed in I, and
+   no EvStart at all when the plan is not durably Running.  No bound on shapes, images, traces.
+
+   FULL STATEMENT (c09_no_reexecution): the same for I = crash_image sh tr1 k of every trace tr1 accepted by
+   coq/engine's automaton and every k.  What is missing for it is one lemma about coq/engine (frozen):
+   `run sh init tr1 = Some s -> img_wf sh (s_img s) = true` (every durable image of an uninterrupted run is
+   well-formed); the correspondence checks img_wf on every real crash image, of uninterrupted runs AND of recoveries. *)
 Theorem c09_no_reexecution_partial :
   forall (d : devs) (sh : shape) (I : image) (tr : list event) (r0 r : rst),
-    repair_sound sh (dimg_of_image I) ->
+    (cst I OPlan = Running -> img_wf sh (dimg_of_image I) = true) ->
     rinit sh (dimg_of_image I) (im_reason I) = Some r0 ->
     rrun d sh r0 tr = Some r ->
     mon_noreexec I tr = true.
-Proof. exact noreexec_of_repair_sound. Qed.
+Proof. exact noreexec_of_wf. Qed.
 Print Assumptions c09_no_reexecution_partial.
+
+(* crash_chain: any number of crashes.  Process i restarts on image im_i, does tr_i and crashes after k_i of its
+   writes; im_(i+1) is the durable image that leaves behind (Resume.crash_from).  If every process's trace is
+   accepted by the resumed automaton and every image on which a plan is Running is well-formed, then every EvStart of
+   every process is of work that the image THAT process restarted on shows unfinished (and its plan was Running). *)
+Theorem c09_crash_chain :
+  forall (d : devs) (sh : shape) (steps : list (list event * nat)) (im : dimg) (rs : reason),
+    chain_accepted d sh im rs steps -> chain_wf sh im rs steps -> chain_noreexec sh im rs steps.
+Proof. exact crash_chain_noreexec. Qed.
+Print Assumptions c09_crash_chain.
+
+(* what the proof needs to know about the crash repair holds for every well-formed image: the link to coq/recover
+   (fix_never_unfinishes, plan_processes_blocks, fix_seq_running_form, exec_seq_meets_contract) *)
+Theorem c09_repair_is_sound_on_wellformed_images :
+  forall (sh : shape) (I : dimg),
+    img_wf sh I = true -> ist I OPlan = Running -> resumable_ok (pln_of sh I) = true ->
+    (forall fl b, block_of sh b <> None -> is_terminal (ist I (OBlock b)) = true -> is_terminal (blk_st sh I fl b) = true)
+    /\ (forall fl b q, seq_of sh b q <> None -> is_terminal (blk_st sh I fl b) = false -> ~ In (b, q) (resumed sh I) ->
+          ~ cf (seq_st0 sh I b q) -> open_from sh I b q 0)
+    /\ (forall b q, In (b, q) (resumed sh I) ->
+          ist I (OBlock b) = Running /\ seq_of sh b q <> None /\ open_from sh I b q (first_open (pln_of sh I) b q)).
+Proof. exact repair_sound_facts. Qed.
+Print Assumptions c09_repair_is_sound_on_wellformed_images.
